@@ -108,6 +108,8 @@ def ops_for(case, rng, full=True):
         if a != b:
             ops.append("incx %d %d" % (a, b))
     ops += ["pers %d" % p for p in PRIMES]
+    if not any(x == 0 for x in case.sizes):
+        ops.append("tcof" if case.conv == "top" else "vtx")
     ops.append("key")
     return ops
 
@@ -280,6 +282,36 @@ def spec_checks(case, obs):
                 if any(pos[f] > pos[c] for f in bd[c]):
                     bad.append(("order:%s" % cls, "cell %d comes before one of its faces in the filtration range" % c))
                     break
+    # get_top_dimensional_coface_of_a_cell / get_vertex_of_a_cell: a top cell above (a vertex below) with the same value
+    for op, want_dim in (("tcof", len(case.sizes)), ("vtx", 0)):
+        if op not in obs:
+            continue
+        try:
+            ans = [int(x) for x in obs[op].split()]
+        except ValueError:
+            ans = []
+        if len(ans) != n:
+            bad.append(("%s:%s" % (op, cls), "unparsable answer %r" % obs[op][:60]))
+            continue
+        cache = {}
+        nb = bd if op == "tcof" else cobd     # from the answer r: down through boundaries / up through coboundaries
+        for c in range(n):
+            r = ans[c]
+            okr = 0 <= r < n and dims[r] == want_dim and vals[r] == vals[c]
+            if okr:
+                if r not in cache:
+                    seen, todo = {r}, [r]
+                    while todo:
+                        x = todo.pop()
+                        for f in nb[x]:
+                            if f not in seen:
+                                seen.add(f)
+                                todo.append(f)
+                    cache[r] = seen
+                okr = c in cache[r]
+            if not okr:
+                bad.append(("%s:%s" % (op, cls), "cell %d -> %d is not a %s of it with the same value" % (c, r, "top-dimensional coface" if op == "tcof" else "vertex")))
+                break
     # Betti numbers = essential classes per dimension: binomial(k, i), k = number of periodic directions
     kper = sum(1 for m in case.mask if m and cls == "per")
     d = len(case.sizes)
@@ -359,6 +391,8 @@ def compare(ctx, cases, res, drv, orc):
             res.evaluations += 1
             res.count("op:" + op)
             obsmap[line if op in ("pers", "skel", "incx") else op] = o
+            if op in ("tcof", "vtx") and not (o.startswith("CRASH") or o.startswith("DIED") or o.startswith("EXC")):
+                continue      # "an arbitrary one": specification only, in spec_checks
             alg, _, spec = e.partition(" ## ")
             one = {"group": h, "ops": [line]}
             if o.startswith("CRASH") or o.startswith("DIED") or o.startswith("EXC") or o == "INCONSISTENT":
